@@ -1437,6 +1437,69 @@ class Parser:
 
         os.chdir(str(cwd.absolute()))
 
+    def emission_groups(
+        self,
+    ) -> Tuple[
+        List[TypeAlias],
+        List[Union[TypeAlias, SDF, MDF]],
+        List[Union[TypeAlias, SDF, MDF]],
+    ]:
+        """Order in which back ends must emit type definitions.
+
+        Definitions are kept per kind (aliases, structs, messages), but a definition of one
+        file may refer to any kind of definition of an imported file: an alias of an imported
+        struct, a struct with a field of an imported message type. Returns three lists:
+        the aliases of native types (no dependencies), the definitions for the struct section
+        and the definitions for the message section. Within the last two every definition
+        follows the definitions it refers to; when there are no such cross references the
+        result is aliases / structs / messages in their original order.
+        """
+        early = [
+            a for a in self.aliases.values() if isinstance(a.type_obj, NativeType)
+        ]
+        items: List[Union[TypeAlias, SDF, MDF]] = [
+            a for a in self.aliases.values() if not isinstance(a.type_obj, NativeType)
+        ]
+        items.extend(self.struct_defs.values())
+        items.extend(self.message_defs.values())
+
+        def deps(obj: Union[TypeAlias, SDF, MDF]) -> List[Union[TypeAlias, SDF, MDF]]:
+            if isinstance(obj, TypeAlias):
+                return [obj.type_obj] if isinstance(obj.type_obj, SDF) else []
+            d: List[Union[TypeAlias, SDF, MDF]] = []
+            for f in obj.fields:
+                t = f.type_obj
+                if isinstance(t, TypeAlias):
+                    if not isinstance(t.type_obj, NativeType):
+                        d.append(self.aliases.get(t.name, t))
+                elif isinstance(t, SDF):
+                    d.append(self.struct_defs.get(t.name, t))
+                elif isinstance(t, MDF):
+                    d.append(self.message_defs.get(t.name, t))
+            return d
+
+        ordered: List[Union[TypeAlias, SDF, MDF]] = []
+        seen = set()
+
+        def visit(obj: Union[TypeAlias, SDF, MDF]):
+            if id(obj) in seen:
+                return
+            seen.add(id(obj))
+            for dep in deps(obj):
+                visit(dep)
+            ordered.append(obj)
+
+        for obj in items:
+            visit(obj)
+
+        # everything up to the last struct goes to the struct section
+        last_struct = -1
+        for n, obj in enumerate(ordered):
+            if isinstance(obj, SDF):
+                last_struct = n
+
+        return early, ordered[: last_struct + 1], ordered[last_struct + 1 :]
+
     def trim_root(self, p: pathlib.Path) -> pathlib.Path:
         return pathlib.Path(os.path.relpath(p, self.root_path))
 
